@@ -1,5 +1,6 @@
 /* C14 driver.  stdin: one run per line
  *   <module path>\t<rate>\t<format flags>\t<frames>\t<interp>\t<cfg tokens separated by spaces>
+ * cfg token zonly: no per-frame output, one line "Z frames nonzero_samples first_nonsilent_frame" at the end
  * cfg tokens: mute=<hex mask of channels to mute> | mvol=<0..200 via XMP_PLAYER_VOLUME> | sep=<-100..100 via XMP_PLAYER_MIX> | voices=<n>
  * stdout per run:
  *   R chn amplify ticksize_first stereo_samples mvol mvolbase maxvoc
@@ -25,7 +26,7 @@ int main(void)
 		struct xmp_module *mod;
 		struct xmp_frame_info fi;
 		unsigned long long mute = 0;
-		int mvol = -1, sep = -1000, voices = -1, stereo_samples = 0;
+		int mvol = -1, sep = -1000, voices = -1, stereo_samples = 0, zonly = 0; long nonzero = 0; int firstnz = -1;
 		line[strcspn(line, "\n")] = 0;
 		for (tok = line; nf < 6; nf++) { f[nf] = tok; tok = strchr(tok, '\t'); if (!tok) { nf++; break; } *tok++ = 0; }
 		if (nf < 5) continue;
@@ -35,6 +36,7 @@ int main(void)
 			else if (!strncmp(tok, "mvol=", 5)) mvol = atoi(tok + 5);
 			else if (!strncmp(tok, "sep=", 4)) sep = atoi(tok + 4);
 			else if (!strncmp(tok, "voices=", 7)) voices = atoi(tok + 7);
+			else if (!strcmp(tok, "zonly")) zonly = 1;
 		}
 		c = xmp_create_context();
 		ctx = (struct context_data *)c;
@@ -54,6 +56,11 @@ int main(void)
 			if (xmp_play_frame(c) < 0) break;
 			xmp_get_frame_info(c, &fi);
 			n = ctx->s.ticksize * ((format & XMP_FORMAT_MONO) ? 1 : 2);
+			if (zonly) {
+				/* silence survey: only count what is not silent (accumulators and 16-bit PCM) */
+				for (i = 0; i < n; i++) if (ctx->s.buf32[i] || ((short *)fi.buffer)[i]) { nonzero++; if (firstnz < 0) firstnz = k; }
+				continue;
+			}
 			printf("A");
 			for (i = 0; i < n; i++) printf(" %d", ctx->s.buf32[i]);
 			printf("\nP ");
@@ -69,6 +76,7 @@ int main(void)
 			printf("\n");
 			printf("U %d %d\n", ctx->p.virt.virt_used, ctx->p.virt.maxvoc);
 		}
+		if (zonly) printf("Z %d %ld %d\n", k, nonzero, firstnz);
 		puts("ENDRUN");
 		fflush(stdout);
 		xmp_end_player(c);
